@@ -200,11 +200,15 @@ impl LogInnerManager {
         };
         if msg_count > 0 {
             let end_index = this.get_end_index();
+            // the term of the last record is needed even when that record is split off
+            let split_off_index = this.split_off_index;
+            this.split_off_index = this.start_index;
             if let Ok(logs) = this.read_records(end_index - 1, end_index).await {
                 if let Some(r) = logs.last() {
                     this.last_term = r.term;
                 }
             }
+            this.split_off_index = split_off_index;
         }
         Ok(this)
     }
